@@ -2,8 +2,10 @@
 # usage: tools/withpatch.sh <patch.diff> <command...>   apply a seeded change to /repo, run the command, always undo.
 set -u
 patch="$1"; shift
+mkdir -p /verif/target
+exec 9>/verif/target/.repo.lock; flock -x 9; export VERIF_LOCK_HELD=1
 if ! git -C /repo diff --quiet; then echo "/repo has uncommitted changes; refusing"; exit 99; fi
 git -C /repo apply "$patch" || { echo "patch does not apply"; exit 98; }
 "$@"; rc=$?
-git -C /repo checkout -- . 
+git -C /repo checkout -- .
 exit $rc
